@@ -58,7 +58,7 @@ def gen_cases(rng, tier):
         site = [rng.choice([0, 1, 2, 3, 6, 8, 12, 21, 22, 23]) if rng.random() < 0.6 else rng.randint(0, 23) for _ in range(3)]
         sc = rng.choice([[1, 1, 1], [1, 1, 1], [2, 1, 1], [1, 2, 2], [2, 2, 2], [3, 1, 1]])
         cases.append({'sg': sg, 'm': m, 'site24': site, 'supercell': sc, 'rfrac': rng.choice([0.3, 0.6, 0.95]), 'pseed': rng.randrange(10**6), 'npos': rng.randint(6, 20),
-                      'site_lat': rng.choice(['same', 'same', 'params', 'scaled'])})
+                      'site_lat': rng.choice(['same', 'same', 'params', 'scaled']), 'disp_first': rng.random() < 0.5})
     return cases
 
 
@@ -143,6 +143,8 @@ def impl(case):
         with warnings.catch_warnings():
             warnings.simplefilter('ignore')
             before = np.array(traj.positions).copy()
+            if case.get('disp_first'):
+                _ = traj.displacements        # any displacement-based analysis made earlier leaves the trajectory in displacement mode
             shapes = an.analyze_trajectory(traj, supercell=tuple(sc), radius=r)
             # the analysis is repeated on the same trajectory (e.g. after optimising the sites, or with another radius): same input, same answer
             source_same = bool(np.array_equal(before, np.array(traj.positions)))
